@@ -535,6 +535,8 @@ let run_osrm () =
     | "nodurations" -> XStatus (true, Some (JObj [ (S (S O), JStr) ]))
     | "nulls" -> table (List.map (fun _ -> JNull) durs) (List.map (fun _ -> JNull) dists)
     | "fewer" -> let k = 1 + n / 2 in table (take k durs) (take k dists)
+    | "emptyrows" -> table [] []
+    | "emptydist" -> table durs []
     | "fewer_dist" -> let k = 1 + n / 2 in table durs (take k dists)
     | "fewer_dur" -> let k = 1 + n / 2 in table (take k durs) dists
     | "nodistances" -> XStatus (true, Some (JObj [ (O, JArr [ JArr durs ]) ]))
@@ -627,6 +629,13 @@ let inconsistency (d : data) (f : fs) (name : string) : fs =
   | "trip_too_many_stop_times" ->
     let extra = zs [ 90000; 90100; 90200; 90300; 90400; 90500; 90600; 90700 ] and ones = zs [ 1; 1; 1; 1; 1; 1; 1; 1 ] in
     on_first_trip d f (fun t -> { t with tm_arr = t.tm_arr @ extra; tm_dep = t.tm_dep @ extra; tm_cb = t.tm_cb @ ones; tm_cu = t.tm_cu @ ones })
+  | "trip_one_more_stop_time" ->
+    (* exactly ONE stop time more than before (= one more than the path has stops for the generated trips), later than the
+       last one: the boundary of the count test *)
+    on_first_trip d f (fun t ->
+        let last l = List.fold_left (fun _ x -> x) (z_of_int 0) l in
+        let x = z_of_int (int_of_z (last t.tm_dep) + 60) in
+        { t with tm_arr = t.tm_arr @ [ x ]; tm_dep = t.tm_dep @ [ x ]; tm_cb = t.tm_cb @ zs [ 1 ]; tm_cu = t.tm_cu @ zs [ 1 ] })
   | "trip_short_flag_array" -> on_first_trip d f (fun t -> { t with tm_cu = zs [ 1 ] })
   | "trip_arrival_before_departure" ->
     on_first_trip d f (fun t -> match t.tm_arr, t.tm_dep with
